@@ -18,6 +18,7 @@ namespace {
 enum State { UNUSED = 0, RUNNABLE, BLOCKED, FINISHED };
 
 struct Thread {
+  bool joined;
   volatile int go;  // futex word
   State st;
   vs_pred pred;
@@ -54,7 +55,7 @@ void park(int t) {
   _exit(status == 2 ? 72 : 73);
 }
 
-int take_choice(int n, bool preempt) {
+int take_choice(int n, bool preempt, const char* tag) {
   int idx = SH->trace_len;
   int c = 0;
   if (idx < SH->prefix_len) {
@@ -65,6 +66,7 @@ int take_choice(int n, bool preempt) {
     SH->trace[idx].n = (uint16_t)n;
     SH->trace[idx].preempt = preempt;
     SH->trace[idx].chosen = (uint8_t)c;
+    SH->trace[idx].tag = tag;
     SH->trace_len = idx + 1;
   } else {
     SH->trace_overflow = 1;
@@ -96,7 +98,7 @@ void reschedule(int self) {
     die(2, buf);
   }
   int next = en[0];
-  if (ne > 1) next = en[take_choice(ne, selfEnabled)];
+  if (ne > 1) next = en[take_choice(ne, selfEnabled, self >= 0 ? T[self].tag : "exit")];
   if (T[next].st == BLOCKED) T[next].st = RUNNABLE;
   if (next == self) return;
   cur = next;
@@ -137,7 +139,8 @@ void vs_begin(vs_shared* sh) {
 void vs_end(void) {
   for (int t = 1; t < nthreads; ++t)
     if (T[t].st != FINISHED) die(3, "vs_end with unfinished threads");
-  for (int t = 1; t < nthreads; ++t) pthread_join(T[t].pt, nullptr);
+  for (int t = 1; t < nthreads; ++t)
+    if (!T[t].joined) pthread_join(T[t].pt, nullptr);
   active = false;
   if (SH->trace_len < SH->prefix_len) die(3, "divergence: execution ended before the prefix was consumed");
   SH->status = 1;
@@ -163,7 +166,18 @@ int vs_thread_create(void (*fn)(void*), void* arg) {
 
 static int finished_pred(void* p) { return T[(int)(intptr_t)p].st == FINISHED; }
 
-void vs_thread_join(int tid) { vs_block(finished_pred, (void*)(intptr_t)tid, "join"); }
+void vs_thread_join(int tid) {
+  vs_block(finished_pred, (void*)(intptr_t)tid, "join");
+  // The thread has handed the baton on and is leaving its trampoline: a real join cannot block for long,
+  // and it gives the race detector the join edge the program itself has.
+  if (!T[tid].joined) {
+    T[tid].joined = true;
+    pthread_join(T[tid].pt, nullptr);
+  }
+}
+void vs_note_race(void) {
+  if (SH) SH->user[3]++;
+}
 
 void vs_point(const char* tag) {
   if (!vs_active()) return;
@@ -185,7 +199,7 @@ void vs_block(vs_pred p, void* arg, const char* tag) {
 int vs_choose(int n, const char* tag) {
   (void)tag;
   if (!vs_active() || n <= 1) return 0;
-  return take_choice(n, false);
+  return take_choice(n, false, tag);
 }
 
 }  // extern "C"
